@@ -144,6 +144,8 @@ PATTERNS = [
     (r"std::string \* " + V + r" = new std::string;", 87, [1]),
     (r"allocate\(character\(len=" + V + r"%elem_len\):: " + V + r"\)", 88, [1, 2]),
     (r"call \{hnamefunc0\}\(" + V + r", " + V + r", " + V + r"%elem_len\)", 89, [1, 2, 3]),
+    # struct argument: the C++ struct behind the C struct the wrapper receives
+    (r"\{c_const\}\{cxx_type\} \* " + V + r" = static_cast<\{c_const\}\{cxx_type\} \*>\(static_cast<\{c_const\}void \*>\(\{c_addr\}" + V + r"\)\);", 93, [1, 2]),
     # char ** input
     (r"char \*\*" + V + r" = ShroudStrArrayAlloc\(" + V + r", " + V + r", " + V + r"\);", 80, [1, 2, 3, 4]),
     (r"ShroudStrArrayFree\(" + V + r", " + V + r"\);", 81, [1, 2]),
@@ -195,7 +197,7 @@ OPAQUE = [
     "{c_temp}n = std::min({cxx_var}.size(),{c_temp}n);",
     "-{c_temp}n = std::min({cxx_var}.size(),{c_temp}n);",
     "ShroudStrCopy(BBB, {c_var_len}, {cxx_var}[{c_temp}i].data(), {cxx_var}[{c_temp}i].size());",
-    "{c_const}{cxx_type} * {cxx_var} = static_cast<{c_const}{cxx_type} *>(static_cast<{c_const}void *>({c_addr}{c_var}));",
+    "<modelled> {c_const}{cxx_type} * {cxx_var} = static_cast<...>({c_addr}{c_var});",
     "{c_const}{c_type} * {c_var} = static_cast<{c_const}{c_type} *>(static_cast<{c_const}void *>({cxx_addr}{cxx_var}));",
     "{cxx_type} *{cxx_var} = {cast_static}{cxx_type} *{cast1}{c_var}->base_addr{cast2};",
     "<modelled> {c_var_context}->cxx.addr = {cxx_nonconst_ptr};",
